@@ -134,6 +134,13 @@ func (srv *Session) consumeSingleCommand(ctx context.Context, reader *buffer.Rea
 	srv.logger.Debug("<- incoming command", slog.Int("length", length), slog.String("type", t.String()))
 	err = srv.handleCommand(ctx, conn, t, reader, writer)
 	srv.wg.Done()
+
+	// NOTE: the session ends with the terminate message. Messages which have
+	// been pipelined behind it (and are already buffered) are not processed.
+	if t == types.ClientTerminate {
+		return err
+	}
+
 	if errors.Is(err, io.EOF) {
 		return nil
 	}
